@@ -2,7 +2,7 @@ INIT Init
 NEXT Next
 CONSTANTS
 MaxFields = 2
-HotKinds = {"bool", "int", "uint8", "float", "string", "float32", "[]float32", "[]anyP", "L1", "Str1", "Str2", "Col1", "Col2", "Col3", "*int", "*S", "[]int", "[]uint8", "[]S", "[]*S", "[2]S", "map[string]S", "[2]int", "map[string]int", "map[string]string", "map[string]*S", "map[string]M", "map[string]*M", "[]M", "[]*M", "any", "S", "anon", "E1", "*E1", "E3", "E4", "Tree", "List", "Node", "*Node", "[]Node", "map[string]Tree", "P", "Ma", "float", "N", "*N", "[]N", "map[string]N", "IS1", "IS64", "IP1", "*P2", "*Q2", "R1", "[4]uint8", "BA4", "T1", "T2", "*T2", "U", "V", "W", "MyInt"}
+HotKinds = {"bool", "int", "uint8", "float", "string", "float32", "[]float32", "[]anyP", "L1", "Str1", "Str2", "Col1", "Col2", "Col3", "*int", "*S", "[]int", "[]uint8", "[]S", "[]*S", "[2]S", "map[string]S", "[2]int", "map[string]int", "map[string]string", "map[string]*S", "map[string]M", "map[string]*M", "[]M", "[]*M", "any", "S", "anon", "E1", "*E1", "E3", "E4", "Tree", "List", "Node", "*Node", "[]Node", "map[string]Tree", "P", "Ma", "EN", "*EN", "EA", "float", "N", "*N", "[]N", "map[string]N", "IS1", "IS64", "IP1", "*P2", "*Q2", "R1", "[4]uint8", "BA4", "T1", "T2", "*T2", "U", "V", "W", "MyInt"}
 HotTags = {"", "nm"}
 NbrSet = "quick"
 EmbKinds = {"E1", "*E1", "E2", "E3", "E4", "*P2", "*Q2", "R1"}
